@@ -128,7 +128,7 @@ theorem cloneDir_est (cfg : Cfg) (hd : cfg.deepClone = true) (chk : Ref → Bool
 
 theorem cloneTypes_est (cfg : Cfg) (hd : cfg.deepClone = true) (chk : Ref → Bool) : ∀ (l : List (String × Addr)) (h : Heap),
     (∀ e, e ∈ l → isProtected e.1 = false → typeShape chk h e.2 = true ∧ nameOK h e = true) →
-    ∀ x, x ∈ (cloneTypes cfg h l).2 → (∃ e, e ∈ l ∧ e.1 = x.1) ∧
+    ∀ x, x ∈ (cloneTypes cfg h l).2 → (∃ e, e ∈ l ∧ e.1 = x.1 ∧ isProtected e.1 = false) ∧
       ∀ a', x.2 = some a' → typeShape chk (cloneTypes cfg h l).1 a' = true ∧ nameOK (cloneTypes cfg h l).1 (x.1, a') = true := by
   intro l
   induction l with
@@ -156,7 +156,7 @@ theorem cloneTypes_est (cfg : Cfg) (hd : cfg.deepClone = true) (chk : Ref → Bo
           fun e he hq => ⟨typeShape_keep st e.2 (hin e (by simp [he]) hq).1, nameOK_keep st e (hin e (by simp [he]) hq).2⟩
         simp only [List.mem_cons] at hx
         rcases hx with rfl | hx
-        · refine ⟨⟨(n, a), by simp, rfl⟩, ?_⟩
+        · refine ⟨⟨(n, a), by simp, rfl, hnp⟩, ?_⟩
           intro a' ea
           simp only [Option.some.injEq] at ea
           subst ea
@@ -191,5 +191,229 @@ theorem cloneDirs_est (cfg : Cfg) (hd : cfg.deepClone = true) (chk : Ref → Boo
         subst ea
         exact dirShape_keep (cloneDirs_step cfg hd chk _ rest) _ (cloneDir_est cfg hd chk h a d hr (hin (n, a) (by simp)))
       · exact ih _ (fun e he => dirShape_keep st e.2 (hin e (by simp [he]))) x hx a' ea
+
+
+/-! ### the clone's registry -/
+
+theorem lookup_none_notin {reg : List (String × Addr)} {n : String} (hl : ¬ (lookup reg n).isSome = true) : n ∉ regNames reg := by
+  intro hn
+  exact hl (lookup_isSome_of_name hn)
+
+theorem buildTypeMap_nodup (h : Heap) (fuel : Nat) (roots : List Addr) : (regNames (buildTypeMap h fuel roots)).Nodup := by
+  simp only [buildTypeMap]
+  generalize reach h fuel [] roots = l
+  suffices ∀ (acc : List (String × Addr)), (regNames acc).Nodup →
+      (regNames (l.foldl (fun reg a => match h.readType a with
+        | some t => if (lookup reg t.name).isSome then reg else reg ++ [(t.name, a)]
+        | none => reg) acc)).Nodup from this [] (by simp [regNames])
+  induction l with
+  | nil => intro acc ha; exact ha
+  | cons a l ih =>
+    intro acc ha
+    simp only [List.foldl_cons]
+    apply ih
+    split
+    · split
+      · exact ha
+      · rename_i t _ hl
+        simp only [regNames, List.map_append, List.map_cons, List.map_nil]
+        rw [List.nodup_append]
+        refine ⟨ha, by simp, ?_⟩
+        intro x hx y hy
+        simp only [List.mem_singleton] at hy
+        subst hy
+        intro hxy
+        exact lookup_none_notin hl (hxy ▸ hx)
+    · exact ha
+
+theorem foldl_setdefault_nodup (l : List (String × Addr)) : ∀ (acc : List (String × Addr)), (regNames acc).Nodup →
+    (regNames (l.foldl (fun reg e => if (lookup reg e.1).isSome then reg else reg ++ [e]) acc)).Nodup := by
+  induction l with
+  | nil => intro acc ha; exact ha
+  | cons x l ih =>
+    intro acc ha
+    simp only [List.foldl_cons]
+    apply ih
+    split
+    · exact ha
+    · rename_i hl
+      simp only [regNames, List.map_append, List.map_cons, List.map_nil]
+      rw [List.nodup_append]
+      refine ⟨ha, by simp, ?_⟩
+      intro a ha' y hy
+      simp only [List.mem_singleton] at hy
+      subst hy
+      intro hxy
+      exact lookup_none_notin hl (hxy ▸ ha')
+
+theorem cloneRegistry_nodup (cfg : Cfg) (s : Schema) (h : Heap) (hn : (regNames s.types).Nodup) : (regNames (cloneRegistry cfg s h)).Nodup := by
+  have hbase : (regNames ((s.types.filter fun e => isProtected e.1) ++
+      ((buildTypeMap h (reachFuel h (rootAddrs s)) (rootAddrs s)).filter fun e => !isProtected e.1))).Nodup := by
+    simp only [regNames, List.map_append]
+    rw [List.nodup_append]
+    refine ⟨List.Nodup.sublist (List.Sublist.map _ List.filter_sublist) hn,
+            List.Nodup.sublist (List.Sublist.map _ List.filter_sublist) (buildTypeMap_nodup h _ _), ?_⟩
+    intro a ha b hb hab
+    simp only [List.mem_map, List.mem_filter] at ha hb
+    obtain ⟨e1, ⟨_, hp1⟩, rfl⟩ := ha
+    obtain ⟨e2, ⟨_, hp2⟩, rfl⟩ := hb
+    rw [hab] at hp1
+    simp [hp1] at hp2
+  simp only [cloneRegistry]
+  split
+  · exact foldl_setdefault_nodup s.types _ hbase
+  · exact hbase
+
+/-- the clone of a closed schema starts from entries of the source's registry only -/
+theorem cloneRegistry_sub (cfg : Cfg) (s : Schema) (h : Heap) (hcl : closedB h s = true) : ∀ e, e ∈ cloneRegistry cfg s h → e ∈ s.types := by
+  have hc := closedB_reg hcl
+  have hroots : ∀ a, a ∈ rootAddrs s → Good h s.types a := by
+    intro a ha
+    simp only [closedB, shapeB, Bool.and_eq_true] at hcl
+    simp only [rootAddrs, List.mem_filterMap, List.mem_cons, List.not_mem_nil, or_false] at ha
+    obtain ⟨r, hr, hra⟩ := ha
+    cases r with
+    | none => simp at hra
+    | some r =>
+      simp only [Option.map_some, Option.some.injEq] at hra
+      subst hra
+      rcases hr with hr | hr | hr
+      · have := hcl.1.1.1.2; rw [← hr] at this; exact Or.inl (refOK_good hc this)
+      · have := hcl.1.1.2; rw [← hr] at this; exact Or.inl (refOK_good hc this)
+      · have := hcl.1.2; rw [← hr] at this; exact Or.inl (refOK_good hc this)
+  have hbase : ∀ e, e ∈ (s.types.filter fun e => isProtected e.1) ++
+      ((buildTypeMap h (reachFuel h (rootAddrs s)) (rootAddrs s)).filter fun e => !isProtected e.1) → e ∈ s.types := by
+    intro e he
+    simp only [List.mem_append, List.mem_filter] at he
+    rcases he with ⟨h1, _⟩ | ⟨hb, _⟩
+    · exact h1
+    · exact (buildTypeMap_reg hc _ _ hroots e hb).1
+  intro e he
+  simp only [cloneRegistry] at he
+  split at he
+  · rcases foldl_setdefault_mem _ _ e he with h1 | h1
+    · exact hbase e h1
+    · exact h1
+  · exact hbase e he
+
+/-- … and (fixed variant) from ALL its names: both registries agree on every lookup that succeeds in the source -/
+theorem cloneRegistry_lookup (cfg : Cfg) (hk : cfg.keepAllTypes = true) (s : Schema) (h : Heap) (hcl : closedB h s = true)
+    (hn : (regNames s.types).Nodup) (n : String) (a : Addr) (hl : lookup s.types n = some a) : lookup (cloneRegistry cfg s h) n = some a := by
+  have hmem := lookup_mem' hl
+  have hname : n ∈ regNames (cloneRegistry cfg s h) := by
+    simp only [cloneRegistry, hk, if_true]
+    exact (foldl_setdefault_names s.types _).2 (n, a) hmem
+  simp only [regNames, List.mem_map] at hname
+  obtain ⟨e, he, rfl⟩ := hname
+  have hes := cloneRegistry_sub cfg s h hcl e he
+  have h1 := lookup_of_mem_nodup hn hes
+  rw [hl] at h1
+  have h2 := lookup_of_mem_nodup (cloneRegistry_nodup cfg s h hn) he
+  rw [h2, h1]
+
+
+/-! ### the clone of a closed, well-formed schema -/
+
+theorem refOK_lookup {reg : List (String × Addr)} {r : Ref} (h : refOK reg r = true) : lookup reg r.name = some r.addr := by
+  simpa [refOK] using h
+
+/-- `Schema.clone` (deep copy, all types kept, accumulated flag) of a closed well-formed schema is closed and well-formed -/
+theorem clone_closed_wfs (cfg : Cfg) (hd : cfg.deepClone = true) (hk : cfg.keepAllTypes = true) (hacc : cfg.accumulateBusted = true)
+    (fuel : Nat) (s : Schema) (h h' : Heap) (s' : Schema) (hcl : closedB h s = true) (w : WFs (refOK s.types) h s)
+    (e : clone cfg fuel s h = some (h', s')) : closedB h' s' = true ∧ WFs (refOK s'.types) h' s' := by
+  -- the copying phase
+  obtain ⟨pt, vt, st, nt⟩ := cloneTypes_ok h.size cfg hd s.types h (inv_self h)
+  have stT := fun chk => cloneTypes_step cfg hd chk h s.types
+  have stD := fun chk => cloneDirs_step cfg hd chk (cloneTypes cfg h s.types).1 s.dirs
+  have stAll := fun chk => (stT chk).trans (stD chk)
+  have estT := cloneTypes_est cfg hd (refOK s.types) s.types h (fun e he _ => ⟨w.types e he, w.names e he⟩)
+  have estD := cloneDirs_est cfg hd (refOK s.types) s.dirs (cloneTypes cfg h s.types).1
+    (fun e he => dirShape_keep (stT _) e.2 (w.dirs e he))
+  have hsub := cloneRegistry_sub cfg s h hcl
+  have hnd := cloneRegistry_nodup cfg s h w.nodup
+  have hreadable : ∀ e, e ∈ s.types → (h.readType e.2).isSome = true := by
+    intro e he
+    obtain ⟨t, ht, _⟩ := (typeShape_iff _ h e.2).mp (w.types e he)
+    simp [ht]
+  simp only [clone] at e
+  split at e
+  · cases e
+  · rename_i h1 s1 hr
+    cases e
+    suffices hmain : closedB h' s1 = true ∧ WFs (refOK s1.types) h' s1 from
+      ⟨hmain.1, ⟨hmain.2.types, hmain.2.dirs, hmain.2.names, hmain.2.prot, hmain.2.nodup⟩⟩
+    simp only [replaceTD] at hr
+    split at hr
+    · -- types were replaced by their copies: `fix_type_references` runs on a well-formed schema
+      apply healLoop_closed cfg hacc fuel _ _ _ _ _ hr
+      have hP : ∀ e, e ∈ (replaceTypes cfg (cloneRegistry cfg s h) false (cloneTypes cfg h s.types).2).1 →
+          typeShape (fun _ => true) (cloneDirs cfg (cloneTypes cfg h s.types).1 s.dirs).1 e.2 = true ∧
+          nameOK (cloneDirs cfg (cloneTypes cfg h s.types).1 s.dirs).1 e = true ∧
+          protLeaf (cloneDirs cfg (cloneTypes cfg h s.types).1 s.dirs).1 e = true := by
+        apply replaceTypes_pred cfg (fun e => typeShape (fun _ => true) (cloneDirs cfg (cloneTypes cfg h s.types).1 s.dirs).1 e.2 = true ∧
+          nameOK (cloneDirs cfg (cloneTypes cfg h s.types).1 s.dirs).1 e = true ∧
+          protLeaf (cloneDirs cfg (cloneTypes cfg h s.types).1 s.dirs).1 e = true)
+        · intro x hx a' ea
+          obtain ⟨⟨e0, _, h1x, hnp⟩, h2⟩ := estT x hx
+          obtain ⟨hsh, hnm⟩ := h2 a' ea
+          refine ⟨typeShape_mono (fun _ _ => rfl) _ _ (typeShape_keep (stD _) a' hsh), nameOK_keep (stD (fun _ => true)) _ hnm, ?_⟩
+          simp [protLeaf, ← h1x, hnp]
+        · intro e0 he0
+          have hes := hsub e0 he0
+          by_cases hp : isProtected e0.1 = true
+          · left
+            have hl := protLeaf_keep (stAll (fun _ => true)) e0 (w.prot e0 hes)
+            exact ⟨typeShape_prot _ _ e0 hp hl, nameOK_keep (stAll (fun _ => true)) e0 (w.names e0 hes), hl⟩
+          · right
+            have hnp : isProtected e0.1 = false := by simpa using hp
+            exact nt e0.1 e0.2 hes hnp (readType_lt (hreadable e0 hes)) (hreadable e0 hes)
+      refine ⟨fun e0 he0 => (hP e0 he0).1, ?_, fun e0 he0 => (hP e0 he0).2.1, fun e0 he0 => (hP e0 he0).2.2,
+        replaceTypes_nodup cfg _ _ _ hnd⟩
+      apply replaceDirs_pred (fun e => dirShape (fun _ => true) (cloneDirs cfg (cloneTypes cfg h s.types).1 s.dirs).1 e.2 = true)
+      · intro x hx a' ea
+        exact dirShape_mono (fun _ _ => rfl) _ _ (estD x hx a' ea)
+      · intro e0 he0; simp at he0
+    · -- nothing was replaced: there is no (non-protected) type to copy; the registry is the clone's initial one
+      rename_i hb
+      cases hr
+      have hnil : (cloneTypes cfg h s.types).2 = [] := by
+        apply not_busted_nil cfg hacc (cloneRegistry cfg s h) hnd
+        · intro x hx
+          obtain ⟨⟨e0, he0, h1x, _⟩, _⟩ := estT x hx
+          have hname : x.1 ∈ regNames (cloneRegistry cfg s h) := by
+            simp only [cloneRegistry, hk, if_true]
+            rw [← h1x]
+            exact (foldl_setdefault_names s.types _).2 e0 he0
+          simp only [regNames, List.mem_map] at hname
+          obtain ⟨e1, he1, h1e⟩ := hname
+          refine ⟨e1, he1, h1e, ?_⟩
+          intro heq
+          have hlt := readType_lt (hreadable e1 (hsub e1 he1))
+          have hfresh := vt x hx e1.2 heq
+          exact absurd hlt (Nat.not_lt.mpr hfresh)
+        · simpa [replaceCore] using hb
+      have hmono : ∀ r, refOK s.types r = true → refOK (cloneRegistry cfg s h) r = true := by
+        intro r hr'
+        have := cloneRegistry_lookup cfg hk s h hcl w.nodup r.name r.addr (refOK_lookup hr')
+        simp [refOK, this]
+      have w' : WFs (refOK (cloneRegistry cfg s h)) (cloneDirs cfg (cloneTypes cfg h s.types).1 s.dirs).1
+          (replaceCore cfg { types := cloneRegistry cfg s h, dirs := [], query := s.query, mutation := s.mutation, subscription := s.subscription, dres := none } (cloneTypes cfg h s.types).2 (cloneDirs cfg (cloneTypes cfg h s.types).1 s.dirs).2).1 := by
+        simp only [replaceCore, hnil, replaceTypes]
+        refine ⟨?_, ?_, ?_, ?_, hnd⟩
+        · intro e0 he0
+          exact typeShape_mono hmono _ _ (typeShape_keep (stAll _) e0.2 (w.types e0 (hsub e0 he0)))
+        · apply replaceDirs_pred (fun e => dirShape (refOK (cloneRegistry cfg s h)) (cloneDirs cfg (cloneTypes cfg h s.types).1 s.dirs).1 e.2 = true)
+          · intro x hx a' ea
+            exact dirShape_mono hmono _ _ (estD x hx a' ea)
+          · intro e0 he0; simp at he0
+        · exact fun e0 he0 => nameOK_keep (stAll (fun _ => true)) e0 (w.names e0 (hsub e0 he0))
+        · exact fun e0 he0 => protLeaf_keep (stAll (fun _ => true)) e0 (w.prot e0 (hsub e0 he0))
+      have htypes : (replaceCore cfg { types := cloneRegistry cfg s h, dirs := [], query := s.query, mutation := s.mutation, subscription := s.subscription, dres := none } (cloneTypes cfg h s.types).2 (cloneDirs cfg (cloneTypes cfg h s.types).1 s.dirs).2).1.types
+          = cloneRegistry cfg s h := by simp [replaceCore, hnil, replaceTypes]
+      refine ⟨?_, by rw [htypes]; exact w'⟩
+      apply closedB_of_wfs _ _ (by rw [htypes]; exact w')
+      · rw [htypes]; simp only [replaceCore, hnil, replaceTypes]; exact rootOK_reRoot _ s.query
+      · rw [htypes]; simp only [replaceCore, hnil, replaceTypes]; exact rootOK_reRoot _ s.mutation
+      · rw [htypes]; simp only [replaceCore, hnil, replaceTypes]; exact rootOK_reRoot _ s.subscription
 
 end PyGql.Heap.Own
